@@ -226,5 +226,12 @@ m("C08", "C08-short-comment-with-bracket-prefix-rejected", "R08-comment:skipComm
 
 m("C07", "C07-call-result-count-unchecked", "R07-width:compileFuncCallExpr:OP_CALL:C", ("compile.go", "\tif ec.varargopt+2 > opMaxArgsC || b > opMaxArgsB {", "\tif b > opMaxArgsB {"))
 m("C07", "C07-last-exposes-setlist-data-word", "R07-width:codeStore.Last:hides-setlist-data-word", ("compile.go", "\tif cd.pc > 1 {\n\t\tif prev := cd.codes[cd.pc-2]; opGetOpCode(prev) == OP_SETLIST && opGetArgC(prev) == 0 {\n\t\t\t// the last word is the batch number of an extended SETLIST: data, not an instruction\n\t\t\treturn opInvalidInstruction\n\t\t}\n\t}\n", ""))
+
+m("C01", "C01-negative-zero-preloaded", "R01-alloc:LNumber2I:preload-not-for-negative-zero", ("alloc.go", " && !(v == 0 && math.Signbit(float64(v))) {", " && !math.IsNaN(float64(v)) {"))
+
+m("C18", "C18-concat-clamps-range", "R18-lib:tableConcat:range-as-given", ("tablelib.go", "\tj := L.OptInt(4, tbl.Len())\n\t// the range is taken", "\tj := L.OptInt(4, tbl.Len())\n\ti = intMax(intMin(i, tbl.Len()), 1)\n\t// the range is taken"))
+m("C18", "C18-maxn-array-only", "R18-lib:tableMaxN:all-keys", ("tablelib.go", "\ttbl.ForEach(func(k, _ LValue) {\n\t\tif n, ok := k.(LNumber); ok && n > max {\n\t\t\tmax = n\n\t\t}\n\t})\n", ""))
+m("C18", "C18-remove-any-position", "R18-delegate:tableRemove:position-in-1..n", ("tablelib.go", "\tif pos < 1 || pos > n {\n\t\t// nothing to remove: no result\n\t\treturn 0\n\t}\n", "\tif n == 0 {\n\t\treturn 0\n\t}\n"))
+m("C18", "C18-remove-on-physical-array", "R18-delegate:Remove:shrinks-by-one", ("table.go", "\tlarray := tb.Len()\n\ttb.array = tb.array[:larray]\n", "\tlarray := len(tb.array)\n"), ("table.go", "\t\ttb.array[larray-1] = nil\n\t\ttb.array = tb.array[:larray-1]\n", "\t\ttb.array[larray-1] = LNil\n"))
 if __name__ == "__main__":
     main()
